@@ -2,19 +2,21 @@ SPECIFICATION Spec
 CONSTANTS
   Mode = "all"
   NScopes = 3
-  NameSeq <- Names2
-  MaxDecls = 3
+  NameSeq <- Names3
+  MaxDecls = 2
   MaxRefs = 2
   MaxReqs = 1
   ExportScripts = FALSE
+  AllowHomonyms = TRUE
 VIEW View
 CHECK_DEADLOCK FALSE
 INVARIANTS
   AppliedPreservesBinding
   EditsAreTheOccurrences
   OnlyValidNamesApplied
+  AppliedOnlyWhenAllowed
   BackIsAdmissible
   BackRestores
   RefusalChangesNothing
-  SafeIsExact
-  CaseVariantIsSafe
+  SafeIsExactOnce
+  CaseVariantIsSafeOnce
